@@ -353,6 +353,9 @@ impl Prop for C04 {
     fn cases(&self) -> (u64, u64) {
         (250_000, 4_000_000)
     }
+    fn hang_limit_s(&self) -> Option<u64> {
+        Some(60)
+    }
     fn rule(&self) -> &'static str {
         "choice bytes -> the widest definition generator (every wrapper on every node incl. catch, \
          count/last/many over non-consuming parsers, alternatives, adjacent groups with any lead, \
